@@ -48,6 +48,7 @@ fn main() {
         "typed" => data::typed(&args[1..]),
         "tag" => names::tag(&args[1..]),
         "recv" => conn::recv(&args[1..]),
+        "sendlist" => conn::sendlist(&args[1..]),
         "client" => client::client(&args[1..]),
         "resp" => resp::resp(&args[1..]),
         "cmd" => cmds::cmd(&args[1..]),
